@@ -108,7 +108,50 @@ pub fn run(cfg: &Config) -> i32 {
         }
         judge(&c, l);
     });
+    // tail hunting: many more draws of the generator alone; the pipeline runs only on draws in which a
+    // string leaf is longer than anything seen before at its place (the rare long names that hit a
+    // line limit), starts or ends with a blank, or contains two blanks in a row - the rare shapes in
+    // which length and trimming mistakes show
+    let hunt = cfg.tier.pick(6_000u64, 120_000u64);
+    let mut total = total;
+    let t2 = par_for(cfg, ns * hunt, |i, l| {
+        let (mt, scen, schema) = &schemas[(i % ns) as usize];
+        let Ok(Ok(generated)) = guard(|| crate::plug::generate(schema)) else { return };
+        l.count("hunt:generated", 1);
+        // per worker thread: longest value seen so far at each (scenario, JSON path)
+        thread_local! {
+            static RECORDS: std::cell::RefCell<std::collections::HashMap<(u64, String), usize>> = std::cell::RefCell::new(Default::default());
+        }
+        let mut suspicious = false;
+        let si = i % ns;
+        crate::jsonu::walk(generated.get("fields").unwrap_or(&Value::Null), &mut |p, v| {
+            if let Value::String(s) = v {
+                let n = s.chars().count();
+                if s.starts_with(' ') || s.ends_with(' ') || s.contains("  ") {
+                    suspicious = true;
+                }
+                RECORDS.with(|r| {
+                    let mut r = r.borrow_mut();
+                    let e = r.entry((si, p.to_string())).or_insert(0);
+                    if n > *e {
+                        // a new longest value at this place (after the first sighting)
+                        if *e > 0 {
+                            suspicious = true;
+                        }
+                        *e = n;
+                    }
+                });
+            }
+        });
+        if suspicious {
+            l.count("hunt:pipeline-runs", 1);
+            let c = Case { mt: mt.clone(), scenario: scen.clone(), generated };
+            judge(&c, l);
+        }
+    });
+    total.merge(t2);
     let mut rep = Report::default();
+    rep.extra.insert("tail_hunt_draws_per_scenario".into(), json!(hunt));
     rep.extra.insert("scenario_files".into(), json!(schemas.len()));
     rep.extra.insert("draws_per_scenario".into(), json!(draws));
     rep.extra.insert(
